@@ -81,28 +81,48 @@ func notifyOps(p *Chan) {
 
 func ChanClose(p *Chan) {
 	p.mutex.Lock()
+	if p.close {
+		p.mutex.Unlock()
+		panic(plainError("close of closed channel"))
+	}
 	p.close = true
 	notifyOps(p)
 	p.mutex.Unlock()
 	p.cond.Broadcast()
 }
 
+// ChanTrySend is the non-blocking send (select with default). Sending on a
+// closed channel panics.
 func ChanTrySend(p *Chan, v unsafe.Pointer, eltSize int) bool {
+	ok, closed := chanTrySend(p, v, eltSize)
+	if closed {
+		panic(plainError("send on closed channel"))
+	}
+	return ok
+}
+
+// chanTrySend reports closed instead of panicking, so that a blocking Select can
+// unregister itself before it panics.
+func chanTrySend(p *Chan, v unsafe.Pointer, eltSize int) (ok bool, closed bool) {
 	n := p.cap
 	p.mutex.Lock()
+	if p.close {
+		p.mutex.Unlock()
+		return false, true
+	}
 	if n == 0 {
-		if p.getp != chanHasRecv || p.close {
+		if p.getp != chanHasRecv {
 			p.mutex.Unlock()
-			return false
+			return false, false
 		}
 		if p.data != nil {
 			c.Memcpy(p.data, v, uintptr(eltSize))
 		}
 		p.getp = chanNoSendRecv
 	} else {
-		if p.len == n || p.close {
+		if p.len == n {
 			p.mutex.Unlock()
-			return false
+			return false, false
 		}
 		off := (p.getp + p.len) % n
 		c.Memcpy(c.Advance(p.data, off*eltSize), v, uintptr(eltSize))
@@ -111,7 +131,7 @@ func ChanTrySend(p *Chan, v unsafe.Pointer, eltSize int) bool {
 	notifyOps(p)
 	p.mutex.Unlock()
 	p.cond.Broadcast()
-	return true
+	return true, false
 }
 
 func ChanSend(p *Chan, v unsafe.Pointer, eltSize int) bool {
@@ -130,19 +150,20 @@ func ChanSend(p *Chan, v unsafe.Pointer, eltSize int) bool {
 		}
 		if p.close {
 			p.mutex.Unlock()
-			return false
+			panic(plainError("send on closed channel"))
 		}
 		if p.data != nil {
 			c.Memcpy(p.data, v, uintptr(eltSize))
 		}
 		p.getp = chanNoSendRecv
 	} else {
-		for p.len == n {
+		// a sender parked on a full buffer must notice close
+		for p.len == n && !p.close {
 			p.cond.Wait(&p.mutex)
 		}
 		if p.close {
 			p.mutex.Unlock()
-			return false
+			panic(plainError("send on closed channel"))
 		}
 		off := (p.getp + p.len) % n
 		c.Memcpy(c.Advance(p.data, off*eltSize), v, uintptr(eltSize))
@@ -323,9 +344,9 @@ func Select(ops ...ChanOp) (isel int, recvOK bool) {
 		}
 		prepareSelect(op.C, selOp, op.Send)
 	}
-	var tryOK bool
+	var tryOK, closed bool
 	for {
-		if isel, recvOK, tryOK = trySelect(ops, sendFirst, sendChans); tryOK {
+		if isel, recvOK, tryOK, closed = trySelect(ops, sendFirst, sendChans); tryOK || closed {
 			break
 		}
 		selOp.wait()
@@ -337,34 +358,38 @@ func Select(ops ...ChanOp) (isel int, recvOK bool) {
 		endSelect(op.C, selOp, op.Send)
 	}
 	selOp.end()
+	if closed {
+		// a send case on a closed channel was chosen
+		panic(plainError("send on closed channel"))
+	}
 	return
 }
 
-func trySelect(ops []ChanOp, sendFirst bool, sendChans map[*Chan]bool) (isel int, recvOK, tryOK bool) {
+func trySelect(ops []ChanOp, sendFirst bool, sendChans map[*Chan]bool) (isel int, recvOK, tryOK, closed bool) {
 	// Split probing by direction. If sends are probed first, the recv phase must
 	// not accept select-only senders, because this select's own sends already
 	// failed to commit to a peer. If recvs are probed first, they may accept
 	// select-senders because our own sends have not been attempted yet.
 	if sendFirst {
-		if isel, recvOK, tryOK = trySelectDir(ops, true, false, nil); tryOK {
+		if isel, recvOK, tryOK, closed = trySelectDir(ops, true, false, nil); tryOK || closed {
 			return
 		}
 		return trySelectDir(ops, false, false, sendChans)
 	}
-	if isel, recvOK, tryOK = trySelectDir(ops, false, true, sendChans); tryOK {
+	if isel, recvOK, tryOK, closed = trySelectDir(ops, false, true, sendChans); tryOK || closed {
 		return
 	}
 	return trySelectDir(ops, true, true, nil)
 }
 
-func trySelectDir(ops []ChanOp, send bool, acceptSelectSend bool, sendChans map[*Chan]bool) (isel int, recvOK, tryOK bool) {
+func trySelectDir(ops []ChanOp, send bool, acceptSelectSend bool, sendChans map[*Chan]bool) (isel int, recvOK, tryOK, closed bool) {
 	for isel = range ops {
 		op := ops[isel]
 		if op.C == nil || op.Send != send {
 			continue
 		}
 		if op.Send {
-			if tryOK = ChanTrySend(op.C, op.Val, int(op.Size)); tryOK {
+			if tryOK, closed = chanTrySend(op.C, op.Val, int(op.Size)); tryOK || closed {
 				return
 			}
 			continue
